@@ -22,6 +22,17 @@ int main() {
         for (size_t e = 0; e < m && same; e++) same = fk(c.edges[e]) == fi(c.edges[e]) && c.id(fk(fi(c.edges[e]))) == e
                                                       && fk.is_on_forest(c.edges[e]) == fi.is_on_forest(c.edges[e]) && fj(c.edges[e]) == fi(c.edges[e]);
         same = same && fj.weak_connected_components() == fi.weak_connected_components() && fj.cycle_space_dimension() == fi.cycle_space_dimension();
+        // move construction / move assignment / growth of a vector of indices keep the index as well
+        {
+            parmcb::ForestIndex<DGraph> tmp(fi); parmcb::ForestIndex<DGraph> fm(std::move(tmp));
+            std::vector<parmcb::ForestIndex<DGraph>> vec; vec.push_back(parmcb::ForestIndex<DGraph>(c.g)); vec.push_back(parmcb::ForestIndex<DGraph>(other));
+            vec.emplace_back(c.g); vec.emplace_back(other); vec.emplace_back(c.g);                       // forces reallocation (moves or copies)
+            parmcb::ForestIndex<DGraph> fa(other); parmcb::ForestIndex<DGraph> tmp2(fi); fa = std::move(tmp2);
+            for (const parmcb::ForestIndex<DGraph> *p : { &fm, &vec[0], &vec[2], &vec[4], &fa }) {
+                same = same && p->weak_connected_components() == fi.weak_connected_components() && p->cycle_space_dimension() == fi.cycle_space_dimension();
+                for (size_t e = 0; e < m && same; e++) same = (*p)(c.edges[e]) == fi(c.edges[e]) && p->is_on_forest(c.edges[e]) == fi.is_on_forest(c.edges[e]) && c.id((*p)(fi(c.edges[e]))) == e;
+            }
+        }
         out << " COPY " << (same ? 1 : 0);
         // recover the order in which the BFS roots were taken: emission order of spanning_forest
         std::vector<DGraph::edge_descriptor> emitted;
